@@ -151,6 +151,110 @@ def _bounds_predicate(fn_node):
     return lo, hi
 
 
+def _presweep_presence(ctx, ps):
+    """Which components are present (not None) is a finite domain: 2^3
+    combinations.  Over it (dsa/finite.py): (a) a return that leaves
+    presweep_setup before self._renorm is stored may be taken only when no
+    component is present; (b) inside the cell loop a component contributes to
+    the midpoint total exactly when it is present."""
+    from .. import finite as FD
+    from ..cfg import cfg_of
+    comps = ['self.' + a for a in COMP_ATTR.values()]
+    g = cfg_of(ps)
+    stores = [x for t, x in U.stores(ps.node) if src(t) == 'self._renorm']
+    if not stores:
+        return
+    sn = [g.node_of(x) for x in stores]
+    present = object()
+
+    def evaluate(test, combo):
+        ev = FD.Evaluator({}, set(), attr_env={
+            c: (present if on else None) for c, on in zip(comps, combo)})
+        try:
+            return ev.truth(ev.ev(test, {}))
+        except (FD.Unsupported, FD.Raised):
+            return None
+    combos = [(a, b, c) for a in (0, 1) for b in (0, 1) for c in (0, 1)]
+    rets = [r for r in walk_no_nested(ps.node) if isinstance(r, ast.Return)]
+    for r in rets:
+        rn = g.node_of(r)
+        if rn is None or not g.is_reachable(rn):
+            continue
+        # only returns that can be reached without storing the factor
+        if not g.path_exists(g.entry, rn, avoid=[x for x in sn if x]):
+            continue
+        guards = U.guards(r)
+        bad = None
+        undecided = False
+        for combo in combos:
+            taken = True
+            for test, pol in guards:
+                v = evaluate(test, combo)
+                if v is None:
+                    undecided = True
+                    taken = None
+                    break
+                if v != bool(pol):
+                    taken = False
+                    break
+            if taken and any(combo):
+                bad = combo
+                break
+        if undecided and bad is None:
+            ctx.ok('C03.R3', ps, r, 'early return with a guard that does not '
+                   'depend on the component presence (not decided)')
+            continue
+        what = ''
+        if bad:
+            what = ', '.join(c for c, on in zip(comps, bad) if on)
+        ctx.require(bad is None, 'C03.R3', ps, r,
+                    'presweep_setup returns before the renormalisation '
+                    'factors are stored although %s is given: the midpoint '
+                    'sweep then delivers a power different from the assigned '
+                    'one' % what,
+                    key=ps.full + ' | skip only without distributions')
+    # (b) contributions inside the cell loop
+    loops = [n for n in walk_no_nested(ps.node) if isinstance(n, ast.For)
+             and src(n.iter) == 'range(self.n_region)']
+    if len(loops) != 1:
+        return
+    for attr in comps:
+        contrib = [a for a in ast.walk(loops[0]) if isinstance(
+            a, (ast.Assign, ast.AugAssign)) and attr + '[' in src(a)]
+        ok = bool(contrib)
+        detail = 'no contribution of %s to the midpoint total' % attr
+        for a in contrib:
+            for combo in combos:
+                on = combo[comps.index(attr)]
+                taken = True
+                for test, pol in U.guards(a):
+                    if loops[0] not in [p_ for p_ in _ancestors(test)]:
+                        continue
+                    v = evaluate(test, combo)
+                    if v is None:
+                        continue
+                    if v != bool(pol):
+                        taken = False
+                        break
+                if bool(taken) != bool(on):
+                    ok = False
+                    detail = '%s is %s the midpoint total when it is %s' % (
+                        attr, 'added to' if taken else 'left out of',
+                        'absent' if not on else 'present')
+        ctx.require(ok, 'C03.R3', ps, contrib[0] if contrib else loops[0],
+                    detail, key='%s | %s enters the total iff present'
+                    % (ps.full, attr))
+
+
+def _ancestors(n):
+    from ..core import parent
+    out = []
+    while n is not None:
+        out.append(n)
+        n = parent(n)
+    return out
+
+
 def r3(ctx):
     repo = ctx.repo
     cls = repo.cls('power', 'AssemblyPower')
@@ -238,6 +342,7 @@ def r3(ctx):
                     'the renormalisation target must be avg_power times the '
                     'height covered by the selected steps, not the full cell '
                     'height', key=ps.full + ' | normalisation target')
+    _presweep_presence(ctx, ps)
     # the factor is stored and consumed per cell
     # value stored as the per-cell factor (locals expanded flow-sensitively)
     st = [x for t, x in U.stores(ps.node) if src(t) == 'self._renorm'
